@@ -147,6 +147,7 @@ func c07Run(run *vfRun, c c07Case) {
 		orc.onPut(n, b, src, seq)
 	}
 	nt.onSyncSend = orc.onSyncSend
+	nt.onPutRet = orc.onPutRet
 	// the C01/C02 oracle reports under their own ids; re-label for this run
 	// (a gap / fork / unverifiable beacon at or after the transition is a C07 violation)
 	var injMu sync.Mutex
